@@ -77,7 +77,7 @@ func foreignKind(kind int) int {
 func runC20(c *Ctx) {
 	reps := 2
 	if !c.Quick() {
-		reps = 30
+		reps = 90
 	}
 	runs := 0
 	for rep := 0; rep < reps; rep++ {
